@@ -485,14 +485,22 @@ def extra_cases(tier):
             combos.append(c)
     out = []
     n_s, n_times = 3, 2
-    for c in combos:
+    # a heterogeneous dimension inside a NESTED block, every model still at its default single individual (the posterior
+    # sets the number of simulated individuals on the outer model)
+    nested = [(('H', 'G', 'P'), lambda q: [dict(kind='comp', parts=q[:2]), q[2]]),
+              (('P', 'G', 'H'), lambda q: [q[0], dict(kind='comp', parts=q[1:])]),
+              (('H', 'P', 'L'), lambda q: [dict(kind='comp', parts=q[:2]), q[2]]),
+              (('G', 'H'), lambda q: [dict(kind='comp', parts=[q[0], q[1]])])]
+    for c, nest in [(c, None) for c in combos] + nested:
         for free, log_scale in itertools.product([False, True], [False, True]):
             pop = dict(kind='comp', parts=[dict(_ENUM_LEAVES[k]) for k in c])
+            if nest is not None:
+                pop = dict(kind='comp', parts=nest(pop['parts']))
             n_par = len(c)
             n_cov = ref.pop_n_cov(pop)
             cov = None if n_cov == 0 else [[round(0.5 * math.sin(1.0 + 1.7 * s + 0.9 * q), 6) for q in range(n_cov)]
                                            for s in range(n_s)]
-            spec = dict(n_out=1, n_par=n_par, pop=pop, n_samples=n_s, late=False,
+            spec = dict(n_out=1, n_par=n_par, pop=pop, n_samples=n_s, late=nest is not None,
                         parts=[dict(kind='gauss', nt=n_times)], composed=False,
                         obs=[[[2.1, 3.4]], [[1.7, None]]], times=[1.5, 0.4],
                         sigma=None if free else [0.3], log_scale=log_scale, cov=cov, cov_1d=False,
